@@ -505,6 +505,33 @@ def _():
     return (list(SEQS),), {}
 
 
+def _many(n, seed=7):
+    import random
+    rng = random.Random(seed)
+    from . import gens
+    return gens.repertoire(rng, n, families=n // 8, lo=3, hi=7)
+
+
+@spec("hierarchical_default_large", DI + "hierarchical_clustering")
+def _():
+    return (_many(520),), {}
+
+
+@spec("pcDelta_large", DI + "pcDelta")
+def _():
+    return (_many(600, 8),), {}
+
+
+@spec("symdel_large", NN + "symdel", sorted_triplets)
+def _():
+    return (_many(1100, 9),), {"max_edits": 2}
+
+
+@spec("kdtree_large_ncpu2", NN + "kdtree", sorted_triplets)
+def _():
+    return (_many(700, 10),), {"n_cpu": 2}
+
+
 @spec("hierarchical_kws", DI + "hierarchical_clustering")
 def _():
     return (_tcr_df(),), {"linkage_kws": {"method": "single"}, "cluster_kws": {"t": 2, "criterion": "maxclust"}}
